@@ -194,11 +194,14 @@ theorem input_order_v2 (cfg : Cfg) (h : HistV2) (t : Turn) (hi : WF cfg .input) 
   rw [turnV2_eq_spec cfg h t hi ho hor, turnSpecV2_trace]
   simp [railCalls_input_inStopV2, railCalls_input_restV2]
 
-/-- every 2.x input rail is shown the user's text itself -/
+/-- Which value the 2.x input rails receive: `_user_said` assigns `$text = $event.final_transcript`
+    AFTER the `if $text … else …` match (whatever the waiting flow passed: nothing, a literal, a regular
+    expression), so `$user_message` and the argument of `run input rails` are the UTTERANCE `t.user` —
+    every invoked input rail is shown exactly the user's text. -/
 theorem input_text_v2 (cfg : Cfg) (h : HistV2) (t : Turn) (hi : WF cfg .input) (ho : WF cfg .output) (hor : h.orip = false) :
-    Chained (n2 t.vin) t.user (railCalls .input (turnV2 cfg h t).1) := by
+    ∀ c ∈ railCalls .input (turnV2 cfg h t).1, c.2 = t.user := by
   rw [input_order_v2 cfg h t hi ho hor]
-  exact Pipeline.gate_chained _ _ _
+  exact gate_n2_text t.vin cfg.inRails t.user
 
 /-- `input_before_generation` (2.x). -/
 theorem input_before_generation_v2 (cfg : Cfg) (h : HistV2) (t : Turn) (hi : WF cfg .input) (ho : WF cfg .output) (hor : h.orip = false) :
